@@ -13,32 +13,65 @@ mod proofs {
     fn pow3(e: usize, m: usize) -> usize { let mut r = 1usize; let mut i = 0; while i < e { r = (r * 3) % m; i += 1; } r }
 
     // @harness id=C11 tier=quick unwind=8 timeout=2400 fs=4096
-    // @desc BatchEncoder::new builds the documented index map (slot i of row 0 -> bit-reversed (3^i - 1)/2, row 1 -> bit-reversed (2N - 3^i - 1)/2, a permutation); decode(encode(v)) == v for every slot vector, shorter inputs are zero-padded; encode_polynomial reduces mod t and decode_polynomial inverts it
-    // @bounds BFV N=4, t=17 (batching), q={97,113}; all slot vectors over Z_17; input lengths 4 and 2
-    // @funcs BatchEncoder::new, BatchEncoder::encode, BatchEncoder::decode, BatchEncoder::encode_polynomial, BatchEncoder::decode_polynomial, NTTTables::{ntt_negacyclic_harvey,inverse_ntt_negacyclic_harvey} (plain modulus tables)
+    // @desc BatchEncoder::new builds the documented index map: slot i of row 0 -> bit-reversed (3^i - 1)/2, row 1 -> bit-reversed (2N - 3^i - 1)/2, and the map is a permutation of 0..N-1
+    // @bounds BFV N=4, t=17 (batching), q={97,113}
+    // @funcs BatchEncoder::new
     // @stubs HeContext::get_context_data -> linear search over the literal chain; alloc::sync::Arc::drop_slow -> no-op
     #[kani::proof]
     #[kani::stub(crate::context::HeContext::get_context_data, crate::context::verif_v::get_context_data_stub)]
     #[kani::stub(alloc::sync::Arc::drop_slow, crate::verif_v::arc_drop_slow_noop)]
-    fn c11_roundtrip_and_index_map() {
+    fn c11_index_map() {
         let ctx = lits::ctx_bfv_n4_2p1();
         let be = BatchEncoder::new(ctx.clone());
         assert!(be.slots == 4 && be.matrix_reps_index_map.len() == 4);
         let i: usize = kani::any(); kani::assume(i < 2);
         let pos = pow3(i, 8);
+        kani::cover!(i == 1);
         assert!(be.matrix_reps_index_map[i] == crate::util::reverse_bits_u64(((pos - 1) >> 1) as u64, 2) as usize);
         assert!(be.matrix_reps_index_map[i + 2] == crate::util::reverse_bits_u64(((8 - pos - 1) >> 1) as u64, 2) as usize);
         let m = &be.matrix_reps_index_map;
         assert!(m[0] != m[1] && m[0] != m[2] && m[0] != m[3] && m[1] != m[2] && m[1] != m[3] && m[2] != m[3] && m[0] < 4 && m[1] < 4 && m[2] < 4 && m[3] < 4);
+        std::mem::forget(be); std::mem::forget(ctx);
+    }
+
+    // @harness id=C11 tier=quick unwind=8 timeout=2400 fs=4096
+    // @desc decode(encode(v)) == v for every slot vector; the encoded plaintext has N canonical coefficients
+    // @bounds BFV N=4, t=17, q={97,113}; all slot vectors over Z_17 (full length)
+    // @funcs BatchEncoder::encode, BatchEncoder::decode, NTTTables::{ntt_negacyclic_harvey,inverse_ntt_negacyclic_harvey} (plain modulus tables), Plaintext::is_valid_for
+    // @stubs HeContext::get_context_data -> linear search over the literal chain; alloc::sync::Arc::drop_slow -> no-op
+    #[kani::proof]
+    #[kani::stub(crate::context::HeContext::get_context_data, crate::context::verif_v::get_context_data_stub)]
+    #[kani::stub(alloc::sync::Arc::drop_slow, crate::verif_v::arc_drop_slow_noop)]
+    fn c11_roundtrip_full() {
+        let ctx = lits::ctx_bfv_n4_2p1();
+        let be = BatchEncoder::new(ctx.clone());
         let v = sym_slots();
-        let short: bool = kani::any();
-        let p = if short { be.encode_new(&v[..2]) } else { be.encode_new(&v) };
+        let p = be.encode_new(&v);
         let d = be.decode_new(&p);
         let k: usize = kani::any(); kani::assume(k < 4);
-        kani::cover!(short && v[1] != 0);
+        kani::cover!(v[k] != 0);
         assert!(p.coeff_count() == 4 && p.data().len() == 4 && p.data()[k] < T && d.len() == 4);
-        assert!(d[k] == if short && k >= 2 { 0 } else { v[k] });
-        // polynomial (coefficient) encoding
+        assert!(d[k] == v[k]);
+        std::mem::forget(be); std::mem::forget(ctx);
+    }
+
+    // @harness id=C11 tier=thorough unwind=8 timeout=2400 fs=4096
+    // @desc shorter inputs are zero-padded (decode(encode(v[..2])) = [v0, v1, 0, 0]); encode_polynomial reduces every coefficient mod t and decode_polynomial returns it
+    // @bounds BFV N=4, t=17; input length 2; polynomial of 3 arbitrary u64 coefficients
+    // @funcs BatchEncoder::encode, BatchEncoder::decode, BatchEncoder::encode_polynomial, BatchEncoder::decode_polynomial
+    // @stubs HeContext::get_context_data -> linear search over the literal chain; alloc::sync::Arc::drop_slow -> no-op
+    #[kani::proof]
+    #[kani::stub(crate::context::HeContext::get_context_data, crate::context::verif_v::get_context_data_stub)]
+    #[kani::stub(alloc::sync::Arc::drop_slow, crate::verif_v::arc_drop_slow_noop)]
+    fn c11_short_and_polynomial() {
+        let ctx = lits::ctx_bfv_n4_2p1();
+        let be = BatchEncoder::new(ctx.clone());
+        let v = sym_slots();
+        let p = be.encode_new(&v[..2]);
+        let d = be.decode_new(&p);
+        let k: usize = kani::any(); kani::assume(k < 4);
+        kani::cover!(v[1] != 0);
+        assert!(d[k] == if k >= 2 { 0 } else { v[k] });
         let w: [u64; 3] = kani::any();
         let pp = be.encode_polynomial_new(&w);
         assert!(pp.coeff_count() == 3 && pp.data()[1] == w[1] % T);
